@@ -306,6 +306,8 @@ class Module:
         self.lean_names = {}     # lean name -> key
         self.sources = set()
         self.in_progress = []
+        self.enums = {}
+        self.tables = {}         # lean name -> text of the table definition
 
     # ---- lookup -------------------------------------------------------------------------------
     def candidates(self, tu, simple):
@@ -382,6 +384,59 @@ class Module:
             raise Fail(f"{at}: call of overloaded `{cls}::{name}` cannot be resolved by arity")
         return self.pick(list(groups.values())[0], f"{cls}::{name}")
 
+    def enum_decl(self, tu, q):
+        """The EnumDecl whose qualified name is `q` (clang prints it for the filter `q`), or None."""
+        key = (tu, q)
+        if key not in self.enums:
+            found = []
+            if re.match(r"^[A-Za-z_][A-Za-z_0-9:]*$", q):
+                for o in self.front.decls(tu, q):
+                    for x in walk(o):
+                        if x.get("kind") == "EnumDecl" and x.get("name") == q.split("::")[-1]:
+                            found.append(x)
+            self.enums[key] = found[0] if len(found) == 1 else None
+        return self.enums[key]
+
+    def enum_type(self, tu, q):
+        d = self.enum_decl(tu, q)
+        if d is None:
+            return None
+        if "fixedUnderlyingType" in d:
+            return ctype(d["fixedUnderlyingType"])
+        vals = self.enum_values(d)
+        if all(-(1 << 31) <= v < (1 << 31) for v in vals.values()):
+            return ("s", 32)
+        raise Fail(f"enumeration `{q}` does not fit `int`")
+
+    def enum_values(self, d):
+        vals, nxt = {}, 0
+        for c in d.get("inner", []):
+            if c.get("kind") != "EnumConstantDecl":
+                continue
+            v = None
+            for x in walk(c):
+                if x.get("kind") == "ConstantExpr" and "value" in x:
+                    v = int(x["value"]); break
+            if v is None:
+                if any(isinstance(x, dict) and x.get("kind") for x in c.get("inner", [])):
+                    raise Fail(f"enumerator `{c.get('name')}` has an initialiser clang did not evaluate")
+                v = nxt
+            vals[c["name"]] = v
+            nxt = v + 1
+        return vals
+
+    def enum_constant(self, tu, ref, at):
+        q = norm_q(ref["type"]["qualType"])
+        d = self.enum_decl(tu, q)
+        if d is None:
+            raise Fail(f"{at}: enumeration `{q}` of `{ref['name']}` cannot be located uniquely")
+        vals = self.enum_values(d)
+        if ref["name"] not in vals:
+            raise Fail(f"{at}: `{ref['name']}` is not an enumerator of `{q}`")
+        if d.get("_file"):
+            self.sources.add(d["_file"])
+        return vals[ref["name"]], q
+
     # ---- translation --------------------------------------------------------------------------
     def fresh_lean_name(self, want, key, cls=None):
         for cand in [want, f"{struct_name(cls)}_{want}" if cls else None] + [f"{want}_{i}" for i in range(2, 9)]:
@@ -435,6 +490,8 @@ class Module:
             for f in sorted(self.classes[cls]):
                 out.append(f"  {lean_ident(f)} : {lean_ty(self.classes[cls][f])}")
             out.append("")
+        for t in sorted(self.tables):
+            out.append(self.tables[t])
         for key in self.order:
             out.append(self.defs[key].text)
         out.append(f"end Gen.{self.name}")
@@ -496,6 +553,15 @@ class FnTr:
         self.is_static = decl.get("storageClass") == "static" or decl["kind"] == "FunctionDecl"
         self.is_const = bool(re.search(r"\)\s*const\b", self.qualtype))
 
+    def ct(self, t):
+        """C type of a clang `type` object; enumeration types are their underlying integer type."""
+        r = ctype(t)
+        if r[0] == "class":
+            e = self.mod.enum_type(self.tu, r[1])
+            if e:
+                return e
+        return r
+
     # ---- variables ----------------------------------------------------------------------------
     def declare(self, v):
         name = lean_ident(v["name"]) if v.get("name") else "_anon"
@@ -504,7 +570,7 @@ class FnTr:
             name = f"{base}_{i}"; i += 1
         self.used_names.add(name)
         try:
-            t = ctype(v["type"])
+            t = self.ct(v["type"])
         except Fail:
             t = ("unsupported", v["type"]["qualType"])      # fails loudly where (if) the variable is used
         self.vars[v["id"]] = (name, t)
@@ -822,6 +888,8 @@ class FnTr:
             return self.if_stmt(s, k, ctx)
         if kind in ("WhileStmt", "ForStmt"):
             return self.loop(s, k, ctx)
+        if kind == "SwitchStmt":
+            return self.switch(s, k, ctx)
         if kind == "BreakStmt":
             if "brk" not in ctx:
                 raise Fail(f"{pos_of(s)}: break outside a loop")
@@ -837,7 +905,7 @@ class FnTr:
             return self.assign(e, k)
         if kind == "UnaryOperator" and e.get("opcode") in ("++", "--"):
             lhs = e["inner"][0]
-            t = ctype(lhs["type"])
+            t = self.ct(lhs["type"])
             one = {"kind": "IntegerLiteral", "value": "1", "type": lhs["type"], "_pos": e.get("_pos")}
             fake = {"kind": "BinaryOperator", "opcode": "+" if e["opcode"] == "++" else "-", "type": lhs["type"], "_pos": e.get("_pos"),
                     "inner": [{"kind": "ImplicitCastExpr", "castKind": "LValueToRValue", "type": lhs["type"], "inner": [lhs]}, one]}
@@ -869,18 +937,18 @@ class FnTr:
 
     def assign(self, e, k):
         lhs, rhs = e["inner"]
-        lt = ctype(lhs["type"])
+        lt = self.ct(lhs["type"])
         if e["kind"] == "BinaryOperator":
             return self.store(lhs, self.conv_to(rhs, lt), k)
         op = e["opcode"][:-1]
         comp_t = e["computeLHSType"]
         res_t = e["computeResultType"]
         lval = {"kind": "ImplicitCastExpr", "castKind": "LValueToRValue", "type": lhs["type"], "inner": [lhs]}
-        if ctype(comp_t) != lt:
+        if self.ct(comp_t) != lt:
             lval = {"kind": "ImplicitCastExpr", "castKind": "IntegralCast", "type": comp_t, "inner": [lval], "_pos": e.get("_pos")}
         fake = {"kind": "BinaryOperator", "opcode": op, "type": res_t, "inner": [lval, rhs], "_pos": e.get("_pos")}
         val = self.expr(fake)
-        val = self.convert(ctype(res_t), lt, val, e)
+        val = self.convert(self.ct(res_t), lt, val, e)
         return self.store(lhs, val, k)
 
     def call_stmt(self, e, k):
@@ -929,6 +997,57 @@ class FnTr:
             proj = "r_" + ".2" * i + (".1" if i < len(av) - 1 else "")
             out += f"let {v} : {self.var_type_text(v)} := {proj}\n"
         return out + k
+
+    def switch(self, s, k, ctx):
+        """`switch` without fall-through (every group of labels ends in `break`/`return`, or is the last one) as a chain of
+        `if`s on `cond == label`; the condition is pure, so evaluating it once per comparison is the same value."""
+        if s.get("hasInit") or s.get("hasVar") or len(s["inner"]) != 2:
+            raise Fail(f"{pos_of(s)}: switch with init/condition variable")
+        cond, body = s["inner"]
+        if body.get("kind") != "CompoundStmt":
+            raise Fail(f"{pos_of(s)}: switch body is not a block")
+        groups = []      # [labels (None = default), stmts]
+        for st in body.get("inner", []):
+            labels = []
+            while st.get("kind") in ("CaseStmt", "DefaultStmt"):
+                if st["kind"] == "CaseStmt":
+                    if len(st["inner"]) != 2:
+                        raise Fail(f"{pos_of(st)}: case range")
+                    labels.append(st["inner"][0])
+                    st = st["inner"][1]
+                else:
+                    labels.append(None)
+                    st = st["inner"][0]
+            if labels:
+                groups.append([labels, [st]])
+            elif not groups:
+                raise Fail(f"{pos_of(st)}: statement before the first case label")
+            else:
+                groups[-1][1].append(st)
+        for gi, (labels, stmts) in enumerate(groups):
+            last = stmts[-1] if stmts else {}
+            if last.get("kind") == "BreakStmt":
+                stmts.pop()
+            elif last.get("kind") != "ReturnStmt" and gi != len(groups) - 1:
+                raise Fail(f"{pos_of(last) if last else pos_of(s)}: fall-through between switch cases")
+            if any(x.get("kind") in ("CaseStmt", "DefaultStmt") for st in stmts for x in walk(st)):
+                raise Fail(f"{pos_of(s)}: case label nested inside a statement")
+        dflt = [g for g in groups if None in g[0]]
+        if len(dflt) > 1:
+            raise Fail(f"{pos_of(s)}: two default labels")
+        if dflt and any(l is not None for l in dflt[0][0]):
+            raise Fail(f"{pos_of(s)}: `default` shares its statements with case labels")
+        chain = {"kind": "CompoundStmt", "inner": dflt[0][1] if dflt else []}
+        boolt = {"qualType": "bool"}
+        for labels, stmts in reversed([g for g in groups if None not in g[0]]):
+            tests = [{"kind": "BinaryOperator", "opcode": "==", "type": boolt, "inner": [cond, l], "_pos": l.get("_pos")} for l in labels]
+            c = tests[0]
+            for t in tests[1:]:
+                c = {"kind": "BinaryOperator", "opcode": "||", "type": boolt, "inner": [c, t], "_pos": s.get("_pos")}
+            chain = {"kind": "IfStmt", "inner": [c, {"kind": "CompoundStmt", "inner": stmts}, chain], "_pos": s.get("_pos")}
+        ctx2 = dict(ctx)
+        ctx2["brk"] = k          # a `break` nested in a case leaves the switch
+        return self.stmt(chain, k, ctx2)
 
     def loop(self, s, k, ctx):
         if "cont" in ctx:
@@ -1000,14 +1119,14 @@ class FnTr:
     # ---- expressions --------------------------------------------------------------------------
     def cond(self, n):
         """Boolean condition (clang inserts IntegralToBoolean where needed)."""
-        t = ctype(n["type"])
+        t = self.ct(n["type"])
         e = self.expr(n)
         if t[0] == "bool":
             return e
         return self.convert(t, ("bool",), e, n)
 
     def conv_to(self, n, dst):
-        return self.convert(ctype(n["type"]), dst, self.expr(n), n)
+        return self.convert(self.ct(n["type"]), dst, self.expr(n), n)
 
     def convert(self, src, dst, e, n):
         if src == dst:
@@ -1035,7 +1154,7 @@ class FnTr:
         raise Fail(f"{pos_of(n)}: conversion {src} -> {dst}")
 
     def field(self, cls, m):
-        t = ctype(m["type"])
+        t = self.ct(m["type"])
         if not is_int(t):
             raise Fail(f"{pos_of(m)}: field `{m['name']}` of non-integral type `{m['type']['qualType']}`")
         fs = self.mod.classes.setdefault(cls, {})
@@ -1045,7 +1164,7 @@ class FnTr:
         return t
 
     def shift_amount(self, n):
-        t = ctype(n["type"])
+        t = self.ct(n["type"])
         e = self.expr(n)
         u = unwrap(n)
         if u["kind"] == "IntegerLiteral":
@@ -1066,7 +1185,7 @@ class FnTr:
                 if ck == "NoOp" or ck == "LValueToRValue":
                     st, dt = None, None
                     try:
-                        st, dt = ctype(sub["type"]), ctype(n["type"])
+                        st, dt = self.ct(sub["type"]), self.ct(n["type"])
                     except Fail:
                         pass
                     e = self.expr(sub)
@@ -1074,29 +1193,29 @@ class FnTr:
                         return self.convert(st, dt, e, n)
                     return e
             if ck == "IntegralCast":
-                lit, dt = unwrap(sub), ctype(n["type"])
+                lit, dt = unwrap(sub), self.ct(n["type"])
                 if lit["kind"] == "IntegerLiteral" and is_int(dt) and dt[0] != "bool":
                     v = int(lit["value"])       # conversion of a literal: fold (value-preserving modulo 2^n)
                     if dt[0] == "u":
                         return f"{v % (1 << dt[1])}#{dt[1]}"
                     if v < (1 << (dt[1] - 1)):
                         return f"({v} : Int)"
-                return self.convert(ctype(sub["type"]), dt, self.expr(sub), n)
+                return self.convert(self.ct(sub["type"]), dt, self.expr(sub), n)
             if ck == "UserDefinedConversion":
                 if unwrap(sub)["kind"] != "CXXMemberCallExpr":
                     raise Fail(f"{pos_of(n)}: user-defined conversion of unsupported form")
-                return self.convert(ctype(sub["type"]), ctype(n["type"]), self.expr(sub), n)
+                return self.convert(self.ct(sub["type"]), self.ct(n["type"]), self.expr(sub), n)
             if ck == "IntegralToBoolean":
-                return self.convert(ctype(sub["type"]), ("bool",), self.expr(sub), n)
+                return self.convert(self.ct(sub["type"]), ("bool",), self.expr(sub), n)
             raise Fail(f"{pos_of(n)}: cast kind {ck} ({sub['type']['qualType']} -> {n['type']['qualType']}) is outside the supported subset")
         if k == "IntegerLiteral":
-            t = ctype(n["type"])
+            t = self.ct(n["type"])
             v = n["value"]
             return f"{v}#{t[1]}" if t[0] == "u" else f"({v} : Int)"
         if k == "CXXBoolLiteralExpr":
             return "true" if n["value"] else "false"
         if k == "CharacterLiteral":
-            t = ctype(n["type"])
+            t = self.ct(n["type"])
             return f"({n['value']} : Int)" if t[0] == "s" else f"{n['value']}#{t[1]}"
         if k == "DeclRefExpr":
             ref = n["referencedDecl"]
@@ -1113,14 +1232,16 @@ class FnTr:
                     raise Fail(f"{pos_of(n)}: reference to non-const global `{ref['name']}`")
                 inits = [c for c in d.get("inner", []) if isinstance(c, dict) and "kind" in c]
                 sub = FnTr(self.mod, self.tu, {"type": {"qualType": "void ()"}, "kind": "FunctionDecl", "inner": []}, "_", None, None, {})
-                val = sub.conv_to(inits[0], ctype(d["type"]))
+                val = sub.conv_to(inits[0], self.ct(d["type"]))
                 if sub.abstract or sub.uses_self:
                     raise Fail(f"{pos_of(n)}: initialiser of `{ref['name']}` is not a closed expression")
                 if d.get("_file"):
                     self.mod.sources.add(d["_file"])
                 return f"({val} /- {qual_of(d) or ref['name']} -/)"
             if ref["kind"] == "EnumConstantDecl":
-                raise Fail(f"{pos_of(n)}: enum constant `{ref['name']}` (enums are not yet supported)")
+                v, q = self.mod.enum_constant(self.tu, ref, pos_of(n))
+                t = self.ct(n["type"])
+                return f"({v}#{t[1]} /- {q}::{ref['name']} -/)" if t[0] == "u" else f"(({v} : Int) /- {q.rsplit('::', 1)[0] if '::' in q else q}::{ref['name']} -/)"
             raise Fail(f"{pos_of(n)}: reference to {ref['kind']} `{ref.get('name')}`")
         if k == "MemberExpr":
             b = unwrap(n["inner"][0])
@@ -1133,14 +1254,14 @@ class FnTr:
                 if self.param_is_struct(t):
                     self.field(self.canon_class(t[1]), n)
                     return f"{name}.{lean_ident(n['name'])}"
-                ft = ctype(n["type"])
+                ft = self.ct(n["type"])
                 if not is_int(ft):
                     raise Fail(f"{pos_of(n)}: field `{n['name']}` of non-integral type")
                 return self.add_abstract(f"{name}_{lean_ident(n['name'])}", lean_ty(ft))
             raise Fail(f"{pos_of(n)}: member access on an unsupported object expression")
         if k == "UnaryOperator":
             op = n["opcode"]
-            t = ctype(n["type"])
+            t = self.ct(n["type"])
             a = self.expr(n["inner"][0])
             if op == "+":
                 return a
@@ -1159,7 +1280,7 @@ class FnTr:
             return self.binop(n)
         if k == "ConditionalOperator":
             c = self.cond(n["inner"][0])
-            t = ctype(n["type"])
+            t = self.ct(n["type"])
             return f"(if {c} then {self.conv_to(n['inner'][1], t)} else {self.conv_to(n['inner'][2], t)})"
         if k == "CallExpr":
             return self.call(n)
@@ -1172,6 +1293,8 @@ class FnTr:
             return f"({d.lname} {' '.join(args)})".replace(" )", ")")
         if k == "CXXOperatorCallExpr":
             return self.op_call(n)
+        if k == "ArraySubscriptExpr":
+            return self.table_read(n)
         raise Fail(f"{pos_of(n)}: expression of kind {k} is outside the supported subset")
 
     def binop(self, n):
@@ -1181,8 +1304,8 @@ class FnTr:
             return f"({self.cond(l)} {op} {self.cond(r)})"
         if op == ",":
             raise Fail(f"{pos_of(n)}: comma operator")
-        lt, rt = ctype(l["type"]), ctype(r["type"])
-        t = ctype(n["type"])
+        lt, rt = self.ct(l["type"]), self.ct(r["type"])
+        t = self.ct(n["type"])
         if op in ("<", ">", "<=", ">=", "==", "!="):
             # bool == bool is promoted to int by C; compare the Bools directly (same truth value)
             lu, ru = unwrap_cast_from_bool(l), unwrap_cast_from_bool(r)
@@ -1239,11 +1362,11 @@ class FnTr:
             raise Fail(f"{pos_of(n)}: indirect call")
         ref = cal["referencedDecl"]
         name = ref["name"]
-        rt = ctype(n["type"])
+        rt = self.ct(n["type"])
         if name in ("min", "max") and len(args) == 2 and ("foundReferencedDecl" in cal or "&" in ref["type"]["qualType"]):
             # std::min / std::max (templates taking const T&): the result type is the common argument type
-            t = ctype(args[0]["type"])
-            if t != ctype(args[1]["type"]):
+            t = self.ct(args[0]["type"])
+            if t != self.ct(args[1]["type"]):
                 raise Fail(f"{pos_of(n)}: std::{name} on different types")
             a, b = self.expr(args[0]), self.expr(args[1])
             if t[0] == "s":
@@ -1252,7 +1375,7 @@ class FnTr:
                 return (f"(if {b} < {a} then {b} else {a})" if name == "min" else f"(if {a} < {b} then {b} else {a})")
             raise Fail(f"{pos_of(n)}: std::{name} on {t}")
         if name == "abs" and len(args) == 1:
-            t = ctype(args[0]["type"])
+            t = self.ct(args[0]["type"])
             if t[0] != "s":
                 raise Fail(f"{pos_of(n)}: abs on {t}")
             self.note(n, f"abs: argument must not be the minimum {t[1]}-bit value")
@@ -1301,7 +1424,7 @@ class FnTr:
             vname, vt = self.vars[base["referencedDecl"]["id"]]
             if vt[0] == "vec":
                 if name == "size" and not args:
-                    return None, self.add_abstract(f"{vname}_size", lean_ty(ctype(n["type"])))
+                    return None, self.add_abstract(f"{vname}_size", lean_ty(self.ct(n["type"])))
                 raise Fail(f"{pos_of(n)}: std::vector::{name} is outside the supported subset")
             if vt[0] != "class":
                 raise Fail(f"{pos_of(n)}: member call on {vt}")
@@ -1310,11 +1433,11 @@ class FnTr:
                 bq = base["type"]["qualType"]
                 if not bq.startswith("const "):
                     raise Fail(f"{pos_of(n)}: call of `{name}` on a non-const opaque object `{vname}`")
-                rt = ctype(n["type"])
+                rt = self.ct(n["type"])
                 if not is_int(rt):
                     raise Fail(f"{pos_of(n)}: observer `{vname}.{name}()` returns non-integral `{n['type']['qualType']}`")
                 if args:
-                    ats = [ctype(a["type"]) for a in args]
+                    ats = [self.ct(a["type"]) for a in args]
                     lt = " → ".join([lean_ty(t) for t in ats] + [lean_ty(rt)])
                     f = self.add_abstract(f"{vname}_{lean_ident(name)}", f"({lt})")
                     return None, f"({f} {' '.join(self.expr(a) for a in args)})"
@@ -1327,7 +1450,7 @@ class FnTr:
             oname = base["referencedDecl"]["name"] if base["kind"] == "DeclRefExpr" else base["name"]
             if not cal["inner"][0]["type"]["qualType"].startswith("const "):
                 raise Fail(f"{pos_of(n)}: call of non-const member `{name}` on the opaque object `{oname}`")
-            rt = ctype(n["type"])
+            rt = self.ct(n["type"])
             if not is_int(rt) or args:
                 raise Fail(f"{pos_of(n)}: observer `{oname}.{name}` must take no arguments and return an integral value")
             pname = lean_ident(oname) if name.startswith("operator ") else f"{lean_ident(oname)}_{lean_ident(name)}"
@@ -1340,6 +1463,53 @@ class FnTr:
         if fd.void and recv != "self":
             raise Fail(f"{pos_of(n)}: mutating call on `{recv}`")
         return fd, self.call_args(fd, pre, args, n)
+
+    def table_read(self, n):
+        """`tbl[i]` on a `const` array of integers with a literal initialiser list -> lookup in a Lean `Array` literal."""
+        base, idx = n["inner"]
+        b = unwrap(base)
+        while b["kind"] == "ImplicitCastExpr" and b.get("castKind") == "ArrayToPointerDecay":
+            b = unwrap(b["inner"][0])
+        if b["kind"] == "DeclRefExpr" and b["referencedDecl"]["kind"] == "VarDecl" and b["referencedDecl"]["id"] not in self.vars:
+            ref = b["referencedDecl"]
+        elif b["kind"] == "MemberExpr" and "referencedMemberDecl" in b and unwrap(b["inner"][0])["kind"] == "CXXThisExpr":
+            ref = {"name": b["name"], "kind": "VarDecl", "type": b["type"]}
+        else:
+            raise Fail(f"{pos_of(n)}: subscript on something that is not a const table")
+        m = re.match(r"^const (.+?)\s*\[(\d+)\]$", ref["type"]["qualType"].strip())
+        if not m:
+            raise Fail(f"{pos_of(n)}: subscripted object `{ref['name']}` has type `{ref['type']['qualType']}` (need `const T[N]`)")
+        et, size = ctype_q(m.group(1)), int(m.group(2))
+        if et[0] not in ("u", "s"):
+            raise Fail(f"{pos_of(n)}: table `{ref['name']}` of element type {m.group(1)}")
+        d = self.mod.resolve_bare(self.tu, ref, pos_of(n))
+        inits = [c for c in d.get("inner", []) if isinstance(c, dict) and c.get("kind") == "InitListExpr"]
+        if len(inits) != 1:
+            raise Fail(f"{pos_of(n)}: table `{ref['name']}` has no initialiser list in this translation unit")
+        vals = []
+        for c in inits[0].get("inner", []):
+            u = unwrap(c)
+            neg = False
+            while u["kind"] in CASTS or (u["kind"] == "UnaryOperator" and u.get("opcode") == "-"):
+                if u["kind"] == "UnaryOperator":
+                    neg = not neg
+                u = unwrap(u["inner"][0])
+            if u["kind"] != "IntegerLiteral":
+                raise Fail(f"{pos_of(c)}: element of table `{ref['name']}` is not an integer literal")
+            vals.append(-int(u["value"]) if neg else int(u["value"]))
+        if len(vals) != size:
+            raise Fail(f"{pos_of(n)}: table `{ref['name']}` has {len(vals)} explicit elements, declared size {size}")
+        lname = lean_ident((qual_of(d) or ref["name"]).replace("::", "_"))
+        elems = ", ".join(f"{v % (1 << et[1])}#{et[1]}" if et[0] == "u" else str(v) for v in vals)
+        self.mod.tables[lname] = (f"/-- `{qual_of(d) or ref['name']}` : `{ref['type']['qualType']}`  ({os.path.basename(d.get('_file') or '?')}:{d.get('_line')}) -/\n"
+                                  f"def {lname} : Array {lean_ty(et)} := #[{elems}]\n")
+        if d.get("_file"):
+            self.mod.sources.add(d["_file"])
+        it = self.ct(idx["type"])
+        self.note(n, f"subscript `{ref['name']}[..]`: index must be in [0, {size})")
+        i = self.expr(idx)
+        dflt = f"0#{et[1]}" if et[0] == "u" else "(0 : Int)"
+        return f"({lname}.getD ({i}).toNat {dflt})"
 
     def op_call(self, n):
         cal = unwrap(n["inner"][0])
